@@ -50,7 +50,8 @@ def includes_for(extra=()):
 
 
 def run_extraction(name, driver_text, wanted, extra_includes=(), defines=(), std="c++17", externals=None,
-                   opaque=None, type_map=None, extern_funcs=None, outdir=None, diff=True, diff_skip=()):
+                   opaque=None, type_map=None, extern_funcs=None, outdir=None, diff=True, diff_skip=(),
+                   opaque_patterns=None, extern_patterns=None):
     """returns an Extraction; raises Undecided on any must-fire failure"""
     outdir = outdir or os.path.join(BUILD, "x")
     os.makedirs(outdir, exist_ok=True)
@@ -67,7 +68,8 @@ def run_extraction(name, driver_text, wanted, extra_includes=(), defines=(), std
     selfsha = _sha(open(cxx2c.__file__, "rb").read(), open(__file__, "rb").read())
     key = _sha(name, pp.stdout, std, json.dumps(sorted(wanted)), json.dumps(externals or {}, sort_keys=True),
                json.dumps(opaque or {}, sort_keys=True), json.dumps(type_map or {}, sort_keys=True),
-               json.dumps(extern_funcs or {}, sort_keys=True), selfsha, str(diff), json.dumps(sorted(diff_skip)))
+               json.dumps(extern_funcs or {}, sort_keys=True), selfsha, str(diff), json.dumps(sorted(diff_skip)),
+               json.dumps(opaque_patterns or []), json.dumps(extern_patterns or []))
     cfile = os.path.join(CACHE, key + ".json")
     ex = Extraction(name)
     ex.driver = drv
@@ -78,7 +80,8 @@ def run_extraction(name, driver_text, wanted, extra_includes=(), defines=(), std
     else:
         try:
             em, names = cxx2c.extract(drv, wanted, incs, defines, std, externals=externals, opaque=opaque,
-                                      type_map=type_map, extern_funcs=extern_funcs)
+                                      type_map=type_map, extern_funcs=extern_funcs, opaque_patterns=opaque_patterns,
+                                      extern_patterns=extern_patterns)
             hdr, text = em.output("driver: %s; wanted: %d functions" % (name, len(wanted)), hname=name + ".h")
             cpp, fwd = cxx2c.make_shims(em)
             leafs = {s: struct_leafs(em, s) for s in em.struct_order}
